@@ -295,7 +295,89 @@ def check_case(fn, declared, ugs, recipe, script, config, rec=None):
                                  "outcome": list(res)})
 
 
+# ---- call sequences on one conditional supplier ---------------------------------------------
+
+SEQ_SRC = '''
+def f(x):
+    a: int
+    b = a + x
+    return b
+'''
+
+
+class Audit(Exception):
+    pass
+
+
+def check_sequence(xs, mod, rem, K, aud_before, aud_after, rec=None):
+    """One overriding probe `f(x) > a` used for a whole sequence of calls: it supplies K only
+    when x % mod == rem (documented filter-then-override pipeline); subscribers attached before
+    and after the supplier raise Audit for some x.  Each call is decided on its own:
+      raised by an auditor -> Audit;  supplied -> K + x;  otherwise -> ptera's NameError."""
+    from ptera import probing
+
+    f, glb = PR.load(SEQ_SRC)
+    want, got = [], []
+    for x in xs:
+        if x in aud_before:
+            want.append(("exc", "Audit"))
+        elif x % mod == rem:
+            want.append(("exc", "Audit") if x in aud_after else ("ret", K + x))
+        else:
+            want.append(("exc", "Audit") if x in aud_after else ("exc", "PteraNameError"))
+
+    def auditor(bad):
+        def audit(d):
+            if d["x"] in bad:
+                raise Audit(d["x"])
+        return audit
+
+    try:
+        with probing("f(x) > a", env={"f": f}, overridable=True) as prb:
+            if aud_before:
+                prb.subscribe(auditor(aud_before))
+            prb.filter(lambda d: d["x"] % mod == rem).override(K)
+            if aud_after:
+                prb.subscribe(auditor(aud_after))
+            for x in xs:
+                try:
+                    got.append(("ret", f(x)))
+                except BaseException as e:  # noqa
+                    if isinstance(e, (KeyboardInterrupt, SystemExit)):
+                        raise
+                    got.append(("exc", type(e).__name__))
+    except BaseException as e:
+        if isinstance(e, (KeyboardInterrupt, SystemExit)):
+            raise
+        HY.force_global_clean()
+        raise PropertyViolation("run", f"sequence harness raised {HY.describe_exc(e)}")
+    finally:
+        if HY.global_state_problems():
+            HY.force_global_clean()
+        PR.forget(glb)
+    if got != want:
+        i = next(k for k in range(len(want)) if got[k] != want[k])
+        raise PropertyViolation(
+            "sequence",
+            f"probe f(x) > a supplying {K} when x % {mod} == {rem}, auditors raising before the supplier for "
+            f"{sorted(aud_before)} and after it for {sorted(aud_after)}; calls {xs}: call #{i} f({xs[i]}) gave "
+            f"{got[i]!r}, expected {want[i]!r}; all outcomes {got!r}",
+            extra={"bucket": "sequence:" + want[i][1] if want[i][0] == "exc" else "sequence:ret"})
+    if rec is not None:
+        kinds = {w[1] if w[0] == "exc" else "ret" for w in want}
+        rec.case(h64(repr((xs, mod, rem, K, sorted(aud_before), sorted(aud_after)))), len(kinds) >= 2,
+                 {"mode:sequence"} | {"seq:" + k for k in kinds},
+                 sample=lambda: {"calls": xs, "supply_when": f"x % {mod} == {rem}", "outcomes": want[:6]})
+
+
 def replay(payload):
+    if payload.get("mode") == "sequence":
+        try:
+            check_sequence(payload["xs"], payload["mod"], payload["rem"], payload["K"], set(payload["aud_before"]),
+                           set(payload["aud_after"]))
+        except PropertyViolation as v:
+            return [{"clause": v.clause, "detail": v.detail}]
+        return []
     fn = payload["fn"]
     fn["params"] = [tuple(p) for p in fn["params"]]
     fn["body"] = c01._tuplify(fn["body"])
@@ -319,6 +401,11 @@ def strategy():
 
     @st.composite
     def cases(draw):
+        if draw(st.integers(0, 11)) == 0:
+            xs = draw(st.lists(st.integers(0, 7), min_size=2, max_size=7))
+            mod = draw(st.integers(1, 3))
+            return ("sequence", xs, mod, draw(st.integers(0, mod - 1)), draw(st.sampled_from([0, 500, 7])),
+                    set(draw(st.lists(st.integers(0, 7), max_size=2))), set(draw(st.lists(st.integers(0, 7), max_size=3))))
         base = draw(fns)
         fn, declared, ugs = inject(draw, base)
         recipe = PG.draw_inputs(draw, fn)
@@ -363,11 +450,17 @@ def shard(cfg):
     rec = Recorder()
 
     def body(case):
+        if case[0] == "sequence":
+            return check_sequence(*case[1:], rec=rec)
         check_case(*case, rec=rec)
 
     n, v, herr = hyp_search(strategy(), body, seed=cfg["seed"] * 1000 + cfg["shard"], max_examples=cfg["examples"])
     res = rec.result()
-    if v is not None:
+    if v is not None and v.case[0] == "sequence":
+        _, xs, mod, rem, K, ab, aa = v.case
+        res["violations"] = [violation_record(PROPERTY, v, {"mode": "sequence", "xs": xs, "mod": mod, "rem": rem, "K": K,
+                                                            "aud_before": sorted(ab), "aud_after": sorted(aa)})]
+    elif v is not None:
         fn, declared, ugs, recipe, script, config = v.case
         res["violations"] = [violation_record(PROPERTY, v, {
             "fn": fn, "declared": [list(d) for d in declared], "ugs": ugs, "recipe": recipe, "script": script,
